@@ -412,3 +412,57 @@ def reach_sul_ctor(mrl: int) -> int:
     post: _ != 0
     """
     return sul_ctor_check(mrl)
+
+
+# fixed-width text fields at their limit, with and without trailing blanks (decided by enumeration of the window)
+try:
+    from crosshair import realize
+except ImportError:
+    def realize(x):
+        return x
+
+from dliswriter.logical_record.eflr_types.file_header import FileHeaderItem, FileHeaderSet
+
+
+def text_field_edges_check(field, k, j, lead):
+    """field 0: storage-set identifier (60 characters); field 1: file header id (65).  The text is `lead` blanks, k
+    letters and j trailing blanks: rejected iff longer than the field; otherwise written left-justified in exactly the
+    field width."""
+    k, j, lead = realize(k), realize(j), realize(lead)
+    width = 60 if field == 0 else 65
+    text = ' ' * lead + 'S' * k + ' ' * j
+    n = lead + k + j
+    try:
+        if field == 0:
+            sul = StorageUnitLabel(text)
+            b = lits(sul.represent_as_bytes().bts)
+            got = b[20:] if b is not None and len(b) == 80 else None
+        else:
+            it = FileHeaderItem(text, FileHeaderSet())
+            it.origin_reference = 1
+            b = lits(it._make_attrs_bytes())
+            got = b[14:] if b is not None and len(b) == 14 + 65 else None
+    except ValueError:
+        return 0 if n > width else 1
+    if n > width:
+        return 2
+    if got is None:
+        return 3
+    want = [ord(c) for c in text] + [32] * (width - n)
+    return 0 if got == want else 4
+
+
+def ob_text_field_edges(field: int, k: int, j: int, lead: int) -> int:
+    """
+    pre: 0 <= field <= 1 and 55 <= k <= 67 and 0 <= j <= 3 and 0 <= lead <= 1
+    post: _ == 0
+    """
+    return text_field_edges_check(field, k, j, lead)
+
+
+def reach_text_field_edges(field: int, k: int, j: int, lead: int) -> int:
+    """
+    pre: 0 <= field <= 1 and 55 <= k <= 67 and 0 <= j <= 3 and 0 <= lead <= 1
+    post: _ != 0
+    """
+    return text_field_edges_check(field, k, j, lead)
